@@ -1894,3 +1894,11 @@ mod tests {
         }
     }
 }
+
+#[cfg(eigerco_lumina_verif)]
+pub(super) async fn verif_decode_and_verify_responses(
+    request: &HeaderRequest,
+    responses: &[HeaderResponse],
+) -> Result<Vec<ExtendedHeader>, HeaderExError> {
+    decode_and_verify_responses(request, responses).await
+}
